@@ -147,6 +147,63 @@ theorem setdefault_is_write (c : Cfg) (hc : TypeOK c) (path : List Step) (sub : 
   simp only [view_eq hc, hnav, hk]
   cases dflt <;> rfl
 
+/-- … `popitem` is the deletion of the key it returns (the one the implementation chose) … -/
+theorem popitem_is_delete (c : Cfg) (hc : TypeOK c) (path : List Step) (sub : KVs) (chosen : Option Key) (k : Key) (x : Val)
+    (hnav : nav c.viewT path = .ok sub) (hk : popKey sub chosen = some k) (hx : lookup k sub = some x) :
+    c.apply path (.popitem chosen) = withOut (.pair k x) (c.remove (path.map Prod.fst ++ [k])) := by
+  unfold Cfg.apply
+  simp only [view_eq hc, hnav]
+  cases chosen with
+  | some k0 => simp only [popKey, Option.some.injEq] at hk; subst hk; simp only [hx]
+  | none => simp only [popKey] at hk; simp only [hk, hx]
+
+/-- … `clear` is the deletion of every key of the section, one after the other … -/
+theorem clear_is_deletes (c c' : Cfg) (o : Out) (hc : TypeOK c) (path : List Step) (sub : KVs)
+    (hnav : nav c.viewT path = .ok sub) :
+    c.apply path .clear = withOut .none (c.removeAll (path.map Prod.fst) (keys sub)) ∧
+    (c.apply path .clear = .ok (c', o) →
+      jOf c' = journalOf (jOf c) (delEdits (path.map Prod.fst) (keys sub)) ∧ c'.lower = c.lower ∧
+        JValid (jOf c) (delEdits (path.map Prod.fst) (keys sub))) := by
+  refine ⟨?_, fun h => apply_edits hc path sub .clear hnav trivial h⟩
+  unfold Cfg.apply
+  simp only [view_eq hc, hnav]
+
+/-- … `update(mapping, **kwargs)` is the writes of the mapping's items followed by the writes of the
+    keyword arguments (as the code does since the repair of #20), each a valid write on every base … -/
+theorem update_is_writes (c c' : Cfg) (o : Out) (hc : TypeOK c) (path : List Step) (sub : KVs) (pos : Option KVs) (kw : KVs)
+    (hnav : nav c.viewT path = .ok sub) (hw : OpWF (.update pos kw)) (h : c.apply path (.update pos kw) = .ok (c', o)) :
+    jOf c' = journalOf (jOf c) (setEdits (path.map Prod.fst) (posList pos) ++ setEdits (path.map Prod.fst) kw) ∧
+      c'.lower = c.lower ∧
+      JValid (jOf c) (setEdits (path.map Prod.fst) (posList pos) ++ setEdits (path.map Prod.fst) kw) :=
+  apply_edits hc path sub (.update pos kw) hnav hw h
+
+/-- THE WHOLE OPERATION SET.  Every operation of the property statement — get / set / del by item or
+    attribute, `get`, `pop`, `popitem`, `clear`, `setdefault`, `update`, `in`, `len`, iteration, `keys`,
+    `items` — through a proxy navigated from the root: when it succeeds it is exactly its list of
+    effective edits (`opEdits`; none for reads), and those edits are valid on every base.  `Reach.op`
+    therefore lets `reachable_reads_like_dict` range over histories of ALL these operations. -/
+theorem every_op_is_its_edits (c c' : Cfg) (o : Out) (hc : TypeOK c) (path : List Step) (sub : KVs) (op : Op)
+    (hnav : nav c.viewT path = .ok sub) (hw : OpWF op) (h : c.apply path op = .ok (c', o)) :
+    jOf c' = journalOf (jOf c) (opEdits sub (path.map Prod.fst) op) ∧ c'.lower = c.lower ∧
+      JValid (jOf c) (opEdits sub (path.map Prod.fst) op) :=
+  apply_edits hc path sub op hnav hw h
+
+/-- OUTPUTS.  On a reachable configuration and on the nested dict `replay c.baseT es`, navigation along
+    any key path raises the same exception or reaches sections that read identically; a key is present
+    in the one iff in the other, and the value read — a leaf or a whole SECTION — agrees at every
+    sub-path.  (All read operations and the values returned by `pop` / `popitem` / `setdefault` are
+    such lookups in the navigated section.) -/
+theorem outputs_agree (c : Cfg) (es : List Edit) (h : Reach c es) (hf : FreshAll c.baseT es) (path : List Step) :
+    NavAgree (nav c.viewT path) (nav (replay c.baseT es) path) ∧
+    ∀ sub sub', nav c.viewT path = .ok sub → nav (replay c.baseT es) path = .ok sub' →
+      ∀ k, (lookup k sub = none ↔ lookup k sub' = none) ∧ ∀ r, nodeO r (lookup k sub) = nodeO r (lookup k sub') := by
+  have hx := reachable_reads_like_dict c es h hf
+  have hn := nav_congr path hx
+  refine ⟨hn, ?_⟩
+  intro sub sub' h1 h2 k
+  rw [h1, h2] at hn
+  exact read_congr hn k
+
 /-- … and reads do not change the configuration. -/
 theorem reads_do_not_change (c c' : Cfg) (path : List Step) (k : Key) (o : Out)
     (h : c.apply path (.getItem k) = .ok (c', o) ∨ c.apply path (.getAttr k) = .ok (c', o) ∨
@@ -254,5 +311,18 @@ example : ∃ c es, Reach c es ∧ es = [.set [['x']] (.leaf (.i 7))] := by
     simp [KindOK, c0, Cfg.baseT, Cfg.lower, mergeLevelsT, mergeT_cons, mergeVal, Inv.insert, lookup]
   obtain ⟨c', hm, hc'⟩ := navigated_write_succeeds c0 h0 [] c0.viewT ['x'] (.leaf (.i 7)) trivial rfl hk
   exact ⟨c', _, Reach.write [] c0.viewT ['x'] (.leaf (.i 7)) (Reach.init rfl rfl h0) rfl trivial hm hc', rfl⟩
+
+/-- a configuration reached through a whole DataProxy operation (`Reach.op`): `del cfg['a']` -/
+example : ∃ c es, Reach c es ∧ es = [.del [['a']]] := by
+  let c0 : Cfg := { defaults := [(['a'], .dict [(['b'], .leaf (.i 1))])] }
+  have h0 : TypeOK c0 := typeOK_simple (wfB_sound _ (by decide)) wf_nil wf_nil (compat_nil_right _)
+  have hv : c0.viewT = [(['a'], .dict [(['b'], .leaf (.i 1))])] := by
+    simp [c0, Cfg.viewT, Cfg.baseT, Cfg.lower, viewT, mergeLevelsT, mergeT_cons, mergeVal, Inv.insert, lookup]
+  have h1 : TypeOK { c0 with dels := markDel c0.dels [['a']] } :=
+    ⟨h0.lower, h0.mods, wf_markDel h0.dels _, h0.chain⟩
+  have happ : c0.apply [] (.delItem ['a']) = .ok ({ c0 with dels := markDel c0.dels [['a']] }, .none) := by
+    unfold Cfg.apply
+    simp only [view_eq h0, nav, hv, lookup, if_true, List.map_nil, List.nil_append, remove_ok h0, withOut]
+  exact ⟨_, _, Reach.op [] c0.viewT (.delItem ['a']) .none (Reach.init rfl rfl h0) rfl trivial happ h1, rfl⟩
 
 end Inv
